@@ -175,12 +175,12 @@ def step (w : World) (line : String) : World × String :=
   | ["bb", cfg, method, path, db, dbx, u, p, h, q] =>
     match (kv "cfg" cfg).bind parseCfg, unhex path, (kv "db" db).bind unhex, (kv "dbx" dbx).bind (fun x => x.toList.head?.bind bit),
           parseReq u p h, (kv "q" q).bind parseStmts with
-    | some c, some path, some d, some dx, some r, some q => (w, showDecisionBare (decide w c method path r d dx q))
+    | some c, some path, some d, some dx, some r, some q => (w, showDecisionBare (decide w c method path.toList r d dx q))
     | _, _, _, _, _, _ => (w, "bad-op")
   | ["route", cfg, method, path, db, dbx, u, p, h, q] =>
     match (kv "cfg" cfg).bind parseCfg, unhex path, (kv "db" db).bind unhex, (kv "dbx" dbx).bind (fun x => x.toList.head?.bind bit),
           parseReq u p h, (kv "q" q).bind parseStmts with
-    | some c, some path, some d, some dx, some r, some q => (w, showDecision (decide w c method path r d dx q))
+    | some c, some path, some d, some dx, some r, some q => (w, showDecision (decide w c method path.toList r d dx q))
     | _, _, _, _, _, _ => (w, "bad-op")
   | _ => (w, "bad-op")
 
